@@ -11,12 +11,15 @@ import (
 	"bytes"
 	"context"
 	"fmt"
+	"io"
 	"os"
 	"strings"
 	"sync"
 	"sync/atomic"
 	"testing"
 	"time"
+
+	pkgErrors "github.com/pkg/errors"
 
 	kit "github.com/liftbridge-io/liftbridge/internal/verifkit"
 	"github.com/liftbridge-io/liftbridge/server/verifhook"
@@ -68,6 +71,15 @@ type c01Run struct {
 	standingAcrossTrunc   int
 	standingAcrossSegDrop int
 	standingEager         bool // enumeration: open readers at the first opportunity
+	// readers that stood AT or BEYOND a truncation point and were kept (see step "T")
+	standingKeptAtCut, standingKeptBeyondCut             int
+	standingKeptAtCutActive, standingKeptBeyondCutActive int // ... the cut lay inside the active segment
+	standingAfterCutReads                                int // verified deliveries by such readers after the log regrew
+	standingAfterCutEnded                                map[string]int
+	truncInsideActive                                    int
+	// fpTag, when set, is appended to every violation fingerprint of this run
+	// (the input class under test, used by the limits unit)
+	fpTag string
 }
 
 type c01Standing struct {
@@ -76,6 +88,17 @@ type c01Standing struct {
 	committed bool
 	start     int64
 	sawTrunc  bool
+	// greedy: catches up completely after every operation, so it always stands
+	// at the log end (beyond every later truncation point), like the reader
+	// that serves a caught-up follower
+	greedy bool
+	// afterCut: the reader stood at or beyond the offset of a truncation and
+	// has not delivered anything since.  It may end with a hard error (its
+	// segment was deleted / it cannot be re-positioned), but whatever it
+	// DELIVERS must be exactly the model's message at pos.
+	afterCut bool
+	cutRel   string // "at" / "beyond" (evidence only)
+	dead     bool
 }
 
 // standingStep advances every standing reader by a few messages and opens new
@@ -92,8 +115,20 @@ func (c *c01Run) standingAdvance(rng *kit.RNG, drain bool) {
 	n := c.next()
 	if !drain && len(c.standing) < 4 && n > 0 && (rng.Chance(1, 3) || (c.standingEager && len(c.standing) < 2)) {
 		st := &c01Standing{committed: rng.Chance(1, 3)}
+		if c.standingEager && len(c.standing) == 0 {
+			// enumeration: the first reader is an uncommitted one from offset 0
+			// that always catches up (stands at the log end before every op)
+			st.committed, st.greedy = false, true
+		} else if !st.committed {
+			st.greedy = rng.Chance(1, 4)
+		}
 		if st.committed {
 			st.start = int64(rng.Intn(int(c.hw) + 2))
+		} else if st.greedy {
+			st.start = 0
+			if n > 1 && rng.Bool() {
+				st.start = int64(rng.Intn(int(n)))
+			}
 		} else {
 			st.start = int64(rng.Intn(int(n) + 1))
 		}
@@ -114,39 +149,73 @@ func (c *c01Run) standingAdvance(rng *kit.RNG, drain bool) {
 			limit = c.hw + 1
 		}
 		k := rng.Intn(4)
-		if drain || rng.Chance(1, 8) {
+		if drain || st.greedy || rng.Chance(1, 8) {
 			k = int(n) // catch up completely now and then
 		}
 		for i := 0; i < k && st.pos < limit; i++ {
 			var (
-				m   SerializedMessage
-				off int64
-				ts  int64
-				ep  uint64
-				err error
+				m        SerializedMessage
+				off      int64
+				ts       int64
+				ep       uint64
+				err      error
+				panicked bool
 			)
 			func() {
 				defer func() {
 					if p := recover(); p != nil {
 						err = fmt.Errorf("panic: %v", p)
+						panicked = true
 					}
 				}()
 				m, off, ts, ep, err = st.r.ReadMessage(vfCancelled, hb)
 			}()
 			what := fmt.Sprintf("standing reader (opened at %d, uncommitted=%v, had delivered up to %d, lived through a truncation: %v)", st.start, !st.committed, st.pos-1, st.sawTrunc)
+			if st.afterCut {
+				what = fmt.Sprintf("standing reader (opened at %d, uncommitted=%v, had delivered up to %d) that stood %s the offset of a truncation, read again after the log regrew to [0,%d]", st.start, !st.committed, st.pos-1, st.cutRel, n-1)
+			}
+			if err != nil && st.afterCut {
+				// A reader at or beyond the cut has consumed every message
+				// that was retained; the truncation may have deleted the
+				// segment it holds, which legitimately ends it.  Two outcomes
+				// are never legitimate: a panic (the reader hit bytes that are
+				// not a message), and "nothing to read here" (io.EOF from the
+				// cancelled context = the reader would WAIT) although the log
+				// holds a message at the reader's next offset.
+				if panicked {
+					c.fail("C01:standing-reader-after-cut", fmt.Sprintf("%s panicked at offset %d: %v", what, st.pos, err))
+					return
+				}
+				cause := pkgErrors.Cause(err)
+				if !st.committed && cause == io.EOF {
+					c.fail("C01:standing-reader-after-cut", fmt.Sprintf("%s neither failed nor delivered offset %d: it reports no data (would wait) although the log holds [0,%d]: %v", what, st.pos, n-1, err))
+					return
+				}
+				st.dead = true
+				c.standingAfterCutEnded[fmt.Sprint(cause)]++
+				break
+			}
 			if err != nil {
 				c.fail("C01:standing-reader-error", fmt.Sprintf("%s failed at offset %d although the log holds [0,%d] (hw=%d): %v", what, st.pos, n-1, c.hw, err))
 				return
 			}
 			rec, derr := vfDecode(m, off, ts, ep)
 			if derr != nil {
-				c.fail("C01:standing-reader-error", fmt.Sprintf("%s offset %d: %v", what, off, derr))
+				fp := "C01:standing-reader-error"
+				if st.afterCut {
+					fp = "C01:standing-reader-after-cut"
+				}
+				c.fail(fp, fmt.Sprintf("%s offset %d: %v", what, off, derr))
 				return
 			}
 			if !vfSameRec(rec, c.model[st.pos]) {
 				fp := "C01:standing-reader-content"
 				if rec.Off != st.pos {
 					fp = "C01:standing-reader-offset"
+				}
+				if st.afterCut {
+					// one history shape, one fingerprint (the symptom is in the text)
+					fp = "C01:standing-reader-after-cut"
 				}
 				c.fail(fp, fmt.Sprintf("%s delivered %v, expected %v", what, rec, c.model[st.pos]))
 				return
@@ -156,15 +225,31 @@ func (c *c01Run) standingAdvance(rng *kit.RNG, drain bool) {
 			if st.sawTrunc {
 				c.standingAcrossTrunc++
 			}
+			if st.afterCut {
+				// re-established on a live segment: an ordinary reader again
+				st.afterCut = false
+				c.standingAfterCutReads++
+			}
 		}
 	}
+	keep := c.standing[:0]
+	for _, st := range c.standing {
+		if !st.dead {
+			keep = append(keep, st)
+		}
+	}
+	c.standing = keep
 }
-
 
 func (c *c01Run) next() int64 { return int64(len(c.model)) }
 
 func (c *c01Run) fail(fp, what string) {
 	c.failed = true
+	if c.fpTag != "" && !strings.HasPrefix(fp, "C01:standing-reader") {
+		// the input class under test; what a standing reader sees does not
+		// depend on it (check() reads every message back first)
+		fp += ":" + c.fpTag
+	}
 	c.rep.Violation(fp, what, map[string]any{"maxSegmentBytes": c.maxSeg, "program": strings.Join(c.trace, " ")})
 }
 
@@ -269,6 +354,16 @@ func (c *c01Run) step(op c01Op) {
 		}
 		c.model = append(c.model, recs...)
 	case "T":
+		// does the cut fall inside the active (last) segment, so that this
+		// segment is rewritten and no segment is deleted?
+		cutInActive := false
+		if segs := c.log.Segments(); len(segs) > 0 && op.Arg < c.next() {
+			last := segs[len(segs)-1]
+			cutInActive = op.Arg > last.BaseOffset || (op.Arg == last.BaseOffset && len(segs) == 1)
+		}
+		if cutInActive {
+			c.truncInsideActive++
+		}
 		if err := c.log.Truncate(op.Arg); err != nil {
 			c.fail("C01:truncate-error", fmt.Sprintf("Truncate(%d) failed: %v", op.Arg, err))
 			return
@@ -291,20 +386,35 @@ func (c *c01Run) step(op c01Op) {
 		}
 		c.truncs++
 		c.truncClasses[op.Class]++
-		// A reader survives a truncation if it still has retained messages in
-		// front of it (position < cut).  One that stands at or beyond the cut has
-		// consumed everything retained and may hold a deleted segment; the server
-		// never keeps such a reader (replicator readers are closed before a
-		// replica truncates), so it is dropped here.
-		keep := c.standing[:0]
+		// A reader that still has retained messages in front of it (position <
+		// cut) must survive the truncation unconditionally.  One that stands AT
+		// or BEYOND the cut has consumed everything retained and may hold a
+		// deleted segment (the server closes replicator readers before a replica
+		// truncates): it is kept too, but judged leniently from here on — it may
+		// end with a hard error at its next read; what it DELIVERS once the log
+		// has regrown past it must be the model's message at its position (see
+		// standingAdvance).
 		for _, st := range c.standing {
-			if st.pos >= op.Arg {
+			st.sawTrunc = true
+			if st.pos < op.Arg {
 				continue
 			}
-			st.sawTrunc = true
-			keep = append(keep, st)
+			st.afterCut = true
+			st.cutRel = "beyond"
+			if st.pos == op.Arg {
+				st.cutRel = "at"
+			}
+			switch {
+			case st.pos == op.Arg && cutInActive:
+				c.standingKeptAtCutActive++
+			case st.pos == op.Arg:
+				c.standingKeptAtCut++
+			case cutInActive:
+				c.standingKeptBeyondCutActive++
+			default:
+				c.standingKeptBeyondCut++
+			}
 		}
-		c.standing = keep
 	case "R":
 		c.standing = nil // the log object is replaced
 		if err := c.log.Close(); err != nil {
@@ -496,6 +606,45 @@ func (c *c01Run) truncOffset(rng *kit.RNG, class int) (int64, string) {
 		return pick(0, "at-0")
 	case 5:
 		return pick(-1, "below-0")
+	case 7, 8:
+		// relative to a standing reader: the reader ends up before / exactly at
+		// / beyond the cut
+		var cands []*c01Standing
+		for _, st := range c.standing {
+			if !st.committed {
+				cands = append(cands, st)
+			}
+		}
+		if len(cands) == 0 {
+			if n == 0 {
+				return pick(0, "at-0")
+			}
+			return pick(int64(rng.Intn(int(n))), "mid")
+		}
+		st := cands[rng.Intn(len(cands))]
+		switch rng.Intn(4) {
+		case 0:
+			return pick(st.pos+1, "reader-before-cut")
+		case 1:
+			return pick(st.pos, "reader-at-cut")
+		default:
+			v := st.pos - int64(rng.Range(1, 3))
+			if v < 0 {
+				v = 0
+			}
+			return pick(v, "reader-beyond-cut")
+		}
+	case 9:
+		// strictly inside the active segment (the segment is rewritten, none is deleted)
+		segs := c.log.Segments()
+		last := segs[len(segs)-1]
+		if cnt := n - last.BaseOffset; cnt >= 2 {
+			return pick(last.BaseOffset+1+int64(rng.Intn(int(cnt-1))), "inside-active-segment")
+		}
+		if n == 0 {
+			return pick(0, "at-0")
+		}
+		return pick(int64(rng.Intn(int(n))), "mid")
 	default:
 		if n == 0 {
 			return pick(0, "at-0")
@@ -514,6 +663,15 @@ func (c *c01Run) finish(sig string) {
 	c.rep.Count("reader_starts_checked", int64(c.readerStarts))
 	c.rep.Count("standing_reader_reads", int64(c.standingReads))
 	c.rep.Count("standing_reader_reads_after_living_through_a_truncation", int64(c.standingAcrossTrunc))
+	c.rep.Count("truncations_cut_inside_active_segment", int64(c.truncInsideActive))
+	c.rep.Count("standing_readers_kept_at_cut", int64(c.standingKeptAtCut))
+	c.rep.Count("standing_readers_kept_at_cut_in_active_segment", int64(c.standingKeptAtCutActive))
+	c.rep.Count("standing_readers_kept_beyond_cut", int64(c.standingKeptBeyondCut))
+	c.rep.Count("standing_readers_kept_beyond_cut_in_active_segment", int64(c.standingKeptBeyondCutActive))
+	c.rep.Count("standing_reader_after_cut_verified_deliveries_after_regrow", int64(c.standingAfterCutReads))
+	for k, v := range c.standingAfterCutEnded {
+		c.rep.Count("standing_reader_after_cut_ended_with:"+k, int64(v))
+	}
 	for k, v := range c.truncClasses {
 		c.rep.Count("truncate_"+k, int64(v))
 	}
@@ -524,7 +682,7 @@ func (c *c01Run) finish(sig string) {
 
 func newC01Run(rep *kit.Report, rng *kit.RNG, maxSeg int64) *c01Run {
 	c := &c01Run{rep: rep, dir: vfTempDir("c01"), srcDir: vfTempDir("c01src"), maxSeg: maxSeg, hw: -1,
-		gen: newVfGen(rng.Fork(7)), digests: map[int64]uint64{}, truncClasses: map[string]int{}}
+		gen: newVfGen(rng.Fork(7)), digests: map[int64]uint64{}, truncClasses: map[string]int{}, standingAfterCutEnded: map[string]int{}}
 	return c
 }
 
@@ -538,7 +696,7 @@ func (c *c01Run) cleanup() {
 func TestVerifC01Programs(t *testing.T) {
 	rep := kit.NewReport("C01", "programs")
 	defer rep.Write()
-	rep.SetRule("seeded operation programs (Append batches 1..8, replicated AppendMessageSet in chunks, Truncate at 7 position classes, Close+New, SetHighWatermark) over 7 MaxSegmentBytes values; after every step NewestOffset/OldestOffset, full read-back from every start offset (all when <=48 messages) committed+uncommitted, up to 4 STANDING readers (opened once, advanced 0-3 messages after every later operation incl. truncations beyond their position and HW moves, drained at the end), digest stability and a raw parse of the .log files are compared with a reference model; non-trivial = program rolled a segment and truncated or reopened; distinct = program text + segment size")
+	rep.SetRule("seeded operation programs (Append batches 1..8, replicated AppendMessageSet in chunks, Truncate at 10 position classes, Close+New, SetHighWatermark) over 7 MaxSegmentBytes values; after every step NewestOffset/OldestOffset, full read-back from every start offset (all when <=48 messages) committed+uncommitted, up to 4 STANDING readers (opened once, advanced 0-3 messages after every later operation — a quarter of the uncommitted ones always catch up completely, so they stand at the log end —, drained at the end; a reader with retained messages in front of it must survive every truncation; one that stood AT or BEYOND the offset of a truncation is kept and read again once the log has regrown past it with new messages of other sizes: it may end with a hard error (segment deleted), but a panic, a no-data (would wait) answer while the log holds its next offset, or any delivered message other than the model's message at exactly its next offset is a violation), truncation classes include cuts relative to a standing reader (before / at / beyond it) and cuts strictly inside the active segment, digest stability and a raw parse of the .log files are compared with a reference model; non-trivial = program rolled a segment and truncated or reopened; distinct = program text + segment size")
 	rep.Assume("truncation offsets are > HW, as in the replication protocol (a follower never truncates committed data)")
 	root := kit.NewRNG(kit.Mix(kit.Seed(), 0xC01))
 	nprog := kit.Scale(260, 2600)
@@ -599,7 +757,7 @@ func TestVerifC01Enum(t *testing.T) {
 	rep := kit.NewReport("C01", "enum")
 	defer rep.Write()
 	maxLen := kit.Scale(3, 4)
-	rep.SetRule(fmt.Sprintf("small-scope enumeration: ALL programs of length 1..%d over {A1,A3,M2/1,M3/3,T-last,T-mid,T-segment-base,T-newest+1,R} x MaxSegmentBytes in {64,150}, same per-step oracle as the seeded programs; non-trivial = rolled a segment and truncated or reopened", maxLen))
+	rep.SetRule(fmt.Sprintf("small-scope enumeration: ALL programs of length 1..%d over {A1,A3,M2/1,M3/3,T-last,T-mid,T-segment-base,T-newest+1,R} x MaxSegmentBytes in {64,150}, same per-step oracle as the seeded programs incl. standing readers (the first one opened always catches up completely, so every truncation finds a reader beyond the cut; readers at or beyond a cut are kept and judged after the log regrew); non-trivial = rolled a segment and truncated or reopened", maxLen))
 	rep.SetExhaustive(true)
 	alphabet := []string{"A1", "A3", "M2", "M3", "Tl", "Tm", "Tb", "Tn", "R"}
 	var progs [][]string
@@ -921,7 +1079,36 @@ type c01Tail struct {
 	id     int
 	// committed: a committed reader; it owes deliveries only up to the HW
 	committed bool
+	// afterCut: the reader was parked BEYOND the offset of a truncation and is
+	// still alive.  It may end with an error; what it delivers must be the
+	// model's message at next.
+	afterCut bool
+	dead     bool
+	// ur: the reader's position object as it was before the truncation it was
+	// parked beyond (read while the reader was quiescent)
+	ur *uncommittedReader
 }
+
+// c01WaitsOn reports whether ur is registered as a waiter of one of segs.
+func c01WaitsOn(segs []*segment, ur *uncommittedReader) bool {
+	if ur == nil {
+		return false
+	}
+	for _, s := range segs {
+		s.RLock()
+		_, ok := s.waiters[ur]
+		s.RUnlock()
+		if ok {
+			return true
+		}
+	}
+	return false
+}
+
+// c01PanicErr carries a panic of a reader goroutine to the judging goroutine.
+type c01PanicErr struct{ v any }
+
+func (e c01PanicErr) Error() string { return fmt.Sprintf("panic: %v", e.v) }
 
 // parked reports whether the reader goroutine is blocked waiting for data at
 // the end of the log (registered as a waiter of a segment).
@@ -954,7 +1141,7 @@ func (c *c01Tail) parked(l *commitLog) bool {
 func TestVerifC01Tail(t *testing.T) {
 	rep := kit.NewReport("C01", "tail")
 	defer rep.Write()
-	rep.SetRule("seeded programs over {append batch 1..5, replicated message set, truncate (mid-segment / segment base / last / newest+1), explicit roll check} with 1-4 tail-following readers (uncommitted, and committed ones opened at any offset up to HW+1 — also while nothing is committed — that owe deliveries up to the HW; HW moved by one, a few, or to the log end in one step across several segment boundaries); before every append / HW move each reader is observed parked (segment waiter map resp. hwWaiters), after it each must deliver exactly the appended resp. newly committed messages in order (a wrong offset is a violation at once; a reader that delivers nothing within the watchdog is inconclusive); readers positioned beyond a truncation point are replaced; non-trivial = program truncated mid-segment and then rolled while a reader was parked, or moved the HW across >=2 segment boundaries in one step while a committed reader waited at HW+1; distinct = program text + segment size")
+	rep.SetRule("seeded programs over {append batch 1..5, replicated message set, truncate (mid-segment / segment base / last / newest+1), explicit roll check} with 1-4 tail-following readers (uncommitted, and committed ones opened at any offset up to HW+1 — also while nothing is committed — that owe deliveries up to the HW; HW moved by one, a few, or to the log end in one step across several segment boundaries); before every append / HW move each reader is observed parked (segment waiter map resp. hwWaiters), after it each must deliver exactly the appended resp. newly committed messages in order (a wrong offset is a violation at once; a reader that delivers nothing within the watchdog is inconclusive); a reader goroutine that panics is a violation; an uncommitted reader observed REGISTERED as a waiter of a live segment with an empty delivery channel while no operation runs and the log holds its next offset is stuck (violation, a state predicate, not a timeout); readers parked beyond a truncation point normally end with an error when the truncation deletes/rewrites their segment and are replaced — one that is still alive and parked afterwards is kept and, once the log has regrown past it, must deliver exactly the model's messages from its position (or end with an error); non-trivial = program truncated mid-segment and then rolled while a reader was parked, or moved the HW across >=2 segment boundaries in one step while a committed reader waited at HW+1; distinct = program text + segment size")
 	root := kit.NewRNG(kit.Mix(kit.Seed(), 0xC017))
 	nprog := kit.Scale(120, 1500)
 	seeds := make([]uint64, nprog)
@@ -987,6 +1174,11 @@ func TestVerifC01Tail(t *testing.T) {
 			tl := &c01Tail{r: r, next: start, out: make(chan vfRec, 64), errc: make(chan error, 1), cancel: cancel, id: nextID, committed: committed}
 			nextID++
 			go func() {
+				defer func() {
+					if p := recover(); p != nil {
+						tl.errc <- c01PanicErr{p}
+					}
+				}()
 				hb := make([]byte, 28)
 				for {
 					m, off, ts, ep, err := r.ReadMessage(ctx, hb)
@@ -1015,6 +1207,16 @@ func TestVerifC01Tail(t *testing.T) {
 			tails = append(tails, tl)
 		}
 		// drain: each tail must deliver model[next:], in order
+		kindOf := func(tl *c01Tail) string {
+			k := "tail reader"
+			if tl.committed {
+				k = "committed tail reader"
+			}
+			if tl.afterCut {
+				k += " (was parked beyond the offset of a truncation; the log has regrown past it)"
+			}
+			return k
+		}
 		drain := func(phase string) {
 			for _, tl := range tails {
 				limit := func() int64 {
@@ -1023,32 +1225,96 @@ func TestVerifC01Tail(t *testing.T) {
 					}
 					return c.next()
 				}
-				for tl.next < limit() && !c.failed {
-					select {
-					case rec := <-tl.out:
-						want := c.model[tl.next]
-						if rec.Off != want.Off {
-							kind := "tail reader"
-							if tl.committed {
-								kind = "committed tail reader"
+				for tl.next < limit() && !c.failed && !tl.dead {
+					var rec vfRec
+					got := false
+					deadline := time.Now().Add(10 * time.Second) // watchdog: only ever "inconclusive"
+					for !got && !tl.dead {
+						select {
+						case rec = <-tl.out:
+							got = true
+						case err := <-tl.errc:
+							if _, isPanic := err.(c01PanicErr); isPanic {
+								fp := "C01:tail-reader-panic"
+								if tl.afterCut {
+									fp = "C01:tail-reader-after-cut"
+								}
+								c.fail(fp, fmt.Sprintf("%s: %s #%d panicked while reading offset %d: %v", phase, kindOf(tl), tl.id, tl.next, err))
+								return
 							}
-							c.fail("C01:tail-reader-skipped-or-repeated", fmt.Sprintf("%s: %s #%d (parked at the log end / waiting for the HW before) delivered offset %d, expected %d", phase, kind, tl.id, rec.Off, want.Off))
+							if tl.afterCut {
+								// the truncation took its segment away: a legitimate end
+								tl.dead = true
+								rep.Count("tail_readers_beyond_cut_ended_with_error_after_regrow", 1)
+								break
+							}
+							c.fail("C01:tail-reader-error", fmt.Sprintf("%s: tail reader #%d failed at offset %d: %v", phase, tl.id, tl.next, err))
 							return
+						case <-time.After(20 * time.Millisecond):
+							// A stuck state, not a slow one: no operation is running
+							// now, so a reader that was parked beyond a cut and is
+							// still REGISTERED as a waiter of a live segment (it
+							// found no data at its position) with nothing left in its
+							// delivery channel will never deliver the message the log
+							// now holds at its offset.
+							if tl.afterCut && c01WaitsOn(c.log.Segments(), tl.ur) {
+								select {
+								case rec = <-tl.out:
+									got = true
+								default:
+									c.fail("C01:tail-reader-after-cut", fmt.Sprintf("%s: %s #%d waits for data at the log end although the log holds [0,%d] and it has delivered only up to %d", phase, kindOf(tl), tl.id, c.next()-1, tl.next-1))
+									return
+								}
+							} else if time.Now().After(deadline) {
+								rep.Inconc(fmt.Sprintf("program %d: tail reader #%d delivered nothing for offset %d within the watchdog (%s; program %s)", p, tl.id, tl.next, phase, strings.Join(c.trace, " ")))
+								c.failed = true
+								return
+							}
 						}
-						if !bytes.Equal(rec.Val, want.Val) || rec.TS != want.TS || rec.Epoch != want.Epoch {
-							c.fail("C01:tail-reader-content", fmt.Sprintf("%s: tail reader #%d delivered %v, expected %v", phase, tl.id, rec, want))
-							return
+					}
+					if !got {
+						break
+					}
+					want := c.model[tl.next]
+					if rec.Off != want.Off {
+						fp := "C01:tail-reader-skipped-or-repeated"
+						if tl.afterCut {
+							fp = "C01:tail-reader-after-cut"
 						}
-						tl.next++
-						rep.Count("tail_reads", 1)
-					case err := <-tl.errc:
-						c.fail("C01:tail-reader-error", fmt.Sprintf("%s: tail reader #%d failed at offset %d: %v", phase, tl.id, tl.next, err))
-						return
-					case <-time.After(10 * time.Second):
-						rep.Inconc(fmt.Sprintf("program %d: tail reader #%d delivered nothing for offset %d within the watchdog (%s; program %s)", p, tl.id, tl.next, phase, strings.Join(c.trace, " ")))
-						c.failed = true
+						c.fail(fp, fmt.Sprintf("%s: %s #%d (parked at the log end / waiting for the HW before) delivered offset %d, expected %d", phase, kindOf(tl), tl.id, rec.Off, want.Off))
 						return
 					}
+					if !bytes.Equal(rec.Val, want.Val) || rec.TS != want.TS || rec.Epoch != want.Epoch {
+						fp := "C01:tail-reader-content"
+						if tl.afterCut {
+							fp = "C01:tail-reader-after-cut"
+						}
+						c.fail(fp, fmt.Sprintf("%s: %s #%d delivered %v, expected %v", phase, kindOf(tl), tl.id, rec, want))
+						return
+					}
+					tl.next++
+					rep.Count("tail_reads", 1)
+					if tl.afterCut {
+						tl.afterCut = false
+						rep.Count("tail_readers_beyond_cut_verified_after_regrow", 1)
+					}
+				}
+			}
+			// readers that ended legitimately are replaced by fresh ones at the log end
+			var keep []*c01Tail
+			ended := 0
+			for _, tl := range tails {
+				if tl.dead {
+					tl.cancel()
+					ended++
+					continue
+				}
+				keep = append(keep, tl)
+			}
+			tails = keep
+			for k := 0; k < ended && !c.failed; k++ {
+				if c.next() > 0 {
+					newTail(c.next(), false)
 				}
 			}
 		}
@@ -1137,11 +1403,65 @@ func TestVerifC01Tail(t *testing.T) {
 						midTrunc = true
 					}
 				}
+				// Every uncommitted reader has delivered everything and is parked
+				// (or about to park) at the log end; note which position object
+				// each one uses and which segments exist — read while they are
+				// quiescent (their next move needs this goroutine's truncation).
+				oldSegs := c.log.Segments()
+				for _, tl := range tails {
+					if !tl.committed && !tl.afterCut {
+						tl.ur, _ = tl.r.ctxReader.(*uncommittedReader)
+					}
+				}
 				c.step(c01Op{Kind: "T", Arg: off, Class: cl})
-				// readers that were beyond the cut are replaced by fresh ones at the new end
+				// Readers that were parked beyond the cut.  The truncation deletes
+				// or rewrites the segment they wait on, which wakes them; they
+				// cannot be re-positioned (their offset does not exist any more)
+				// and end with an error, or stay registered on the removed segment
+				// object for good — either way they are replaced by fresh ones at
+				// the new end.  One that is still alive and registered as a
+				// waiter of a LIVE segment is KEPT and judged when the log has
+				// regrown past it: it may still end with an error, but what it
+				// delivers must be the model's message at its position.  The
+				// settling wait is short, bounded and never a verdict (a reader
+				// that stood at the end of a FULL, not yet rolled segment polls
+				// that segment without ever registering or reading: it neither
+				// ends nor parks and is dropped when the wait expires).
 				var keep []*c01Tail
 				for _, tl := range tails {
-					if tl.next > c.next() {
+					if tl.next <= c.next() || tl.committed {
+						keep = append(keep, tl)
+						continue
+					}
+					rep.Count("tail_readers_parked_beyond_cut", 1)
+					settled := false
+					for until := time.Now().Add(50 * time.Millisecond); !settled && time.Now().Before(until); {
+						select {
+						case err := <-tl.errc:
+							if _, isPanic := err.(c01PanicErr); isPanic {
+								c.fail("C01:tail-reader-after-cut", fmt.Sprintf("after-truncate: tail reader #%d (parked beyond the cut) panicked: %v", tl.id, err))
+							}
+							tl.dead, settled = true, true
+							rep.Count("tail_readers_beyond_cut_ended_by_the_truncation", 1)
+						default:
+							if c01WaitsOn(c.log.Segments(), tl.ur) {
+								settled = true
+								tl.afterCut = true
+								rep.Count("tail_readers_beyond_cut_still_waiting_on_a_live_segment_kept", 1)
+							} else if c01WaitsOn(oldSegs, tl.ur) {
+								settled = true
+								tl.dead = true
+								rep.Count("tail_readers_beyond_cut_left_waiting_on_a_removed_segment", 1)
+							} else {
+								time.Sleep(200 * time.Microsecond)
+							}
+						}
+					}
+					if !settled {
+						tl.dead = true
+						rep.Count("tail_readers_beyond_cut_unsettled_dropped", 1)
+					}
+					if tl.dead {
 						tl.cancel()
 						continue
 					}
@@ -1149,7 +1469,7 @@ func TestVerifC01Tail(t *testing.T) {
 				}
 				replaced := len(tails) - len(keep)
 				tails = keep
-				for k := 0; k < replaced; k++ {
+				for k := 0; k < replaced && !c.failed; k++ {
 					if c.next() > 0 {
 						newTail(c.next()-int64(rng.Intn(2)), false)
 					}
